@@ -463,7 +463,11 @@ func cmdCheck(args []string) int {
 			violations++
 			exit = 1
 		} else {
-			fmt.Printf("UNDECIDED property=%s obligation=%s\n", pid, lr.name)
+			why := lr.msg
+			if lr.res != nil {
+				why = fmt.Sprintf("%v", lr.res.Tried)
+			}
+			fmt.Printf("UNDECIDED property=%s obligation=%s (%s)\n", pid, lr.name, why)
 			undecidedList = append(undecidedList, lr.name)
 			undecidedN++
 		}
